@@ -916,13 +916,32 @@ def advance(rep, c, sfx):
             if lit is None or lit == 0:
                 continue
             ascii_ok = False
+
+            def from_input(e, depth=0):
+                """is e a character / byte read from the input text (not a parameter such as the range to match)?"""
+                e = peel(e)
+                if depth > 4 or e is None:
+                    return False
+                if any(kind(y) == "Field" and y["name"] == "input" and "Position" in y.get("bty", "") for y in walk(e)):
+                    return True
+                lid = hirq.local_id(e)
+                if lid is None:
+                    pl = hirq.place(e)
+                    lid = pl[1] if pl else None
+                if lid is None:
+                    return any(from_input(y, depth + 1) for y in walk(e) if y is not e and kind(y) == "Path" and y.get("res") == "local")
+                src = hirq.binding_source(b, lid)
+                return src is not None and from_input(src, depth + 1)
             for g in ctx.guards(x):
                 if g[0] in ("if", "guard") and (g[0] == "guard" or g[2] is True):
-                    txt = " ".join(str(y.get("m", "")) + " " + str(callee(y) or "") for y in walk(g[1]) if kind(y) in ("MethodCall", "Call"))
-                    if "is_ascii" in txt:
-                        ascii_ok = True
+                    for y in walk(g[1]):
+                        if kind(y) == "MethodCall" and "is_ascii" in str(y.get("m", "")) and from_input(y["recv"]):
+                            ascii_ok = True
+                        if kind(y) == "Call" and "is_ascii" in str(callee(y) or "") and y["args"] and from_input(y["args"][0]):
+                            ascii_ok = True
                     cnd = peel(g[1])
-                    if kind(cnd) == "Binary" and cnd["op"] in ("<", "<=") and hirq.lit_value(peel(cnd["r"])) in (0x7F, 0x80, 127, 128):
+                    if kind(cnd) == "Binary" and cnd["op"] in ("<", "<=") and hirq.lit_value(peel(cnd["r"])) in (0x7F, 0x80, 127, 128) \
+                            and from_input(cnd["l"]):
                         ascii_ok = True
             if not ascii_ok:
                 r.violation(key, where(x), "Position::%s moves the cursor by the constant %s: on a multi-byte character this "
@@ -1018,6 +1037,8 @@ def strlen_rule(rep, c, sfx):
                         cond = g[1]
                     elif g[0] == "arm":
                         cond = g[1]["scrut"]
+                    elif g[0] == "let" and g[1].get("els") is not None and g[1].get("init") is not None:
+                        cond = g[1]["init"]      # `let Some(x) = <test> else { return .. }`
                     else:
                         continue
                     for y in expand(cond):
